@@ -45,18 +45,6 @@ Proof.
   apply run_fixed. intros _ it s0 x. exact (ls_mat_same F rO rI radd rmul rsub ropp Rth (jump it s0) x).
 Qed.
 
-(* parafac's shortcut compares LISTS: a request naming every mode in another order is not recognised, the last mode is
-   un-fixed and updated *)
-Lemma all_fixed_permuted_updates : exists (s s' : st (list nat) unit unit),
-  run (fun it m s => (nth m (facs s) [] ++ [it], tt)) (fun _ _ => false) (fun s => s) false (fun _ m s => nth m (facs s) []) (fun _ => false)
-      (fun _ _ => tt) (fun _ => false) (fun _ _ _ => false) (fun _ _ l c => c) (fun _ _ l c => c) (fun _ _ _ => tt)
-      Parafac 3 [1; 0; 2] 1 true s = Ok s' /\ NoDup [1; 0; 2] /\ (forall m, m < 3 -> In m [1; 0; 2]) /\ facs s' <> facs s.
-Proof.
-  exists (mkst tt [[]; []; []] tt), (mkst tt [[]; []; [0]] tt). split; [reflexivity|].
-  split; [repeat constructor; simpl; intuition lia|]. split; [|discriminate].
-  intros m Hm. destruct m as [|[|[|m]]]; simpl; auto; lia.
-Qed.
-
 Lemma normalize_breaks_fixed : exists upd stop normf (s s' : st nat unit unit),
   run upd stop normf true (fun _ _ _ => 0) (fun _ => false) (fun _ _ => tt) (fun _ => false) (fun _ _ _ => false)
       (fun _ _ l c => c) (fun _ _ l c => c) (fun _ _ _ => tt) Parafac 2 [0] 1 true s = Ok s' /\ In 0 (eff_fixed Parafac 2 [0]) /\
